@@ -38,7 +38,7 @@ ASSUMPTIONS = [
     "sound: the tree height stated in the proof equals the height of the honest tree",
 ]
 RULE = ("exhaustive small heights over index multisets with honest, truncated and extended authentication structures; "
-        "seeded random heights up to 12 (16 thorough) with systematic mutations (height, indices, digests, order, root); accessor "
+        "seeded random heights up to 12 (14 thorough) with systematic mutations (height, indices, digests, order, root); accessor "
         "indices over usize extremes; both build profiles; every case is non-trivial; distinct = distinct case text")
 
 
@@ -207,7 +207,7 @@ def cases(tier, rng):
             idxs = [rng.randrange(n) for _ in range(k)]
             ls = rng.choice(["s0", "s7", "m2", "m3", "c1"])
             out += mutations(rng, n, ls, idxs, "mut-small-")
-    hmax = 16 if big else 12
+    hmax = 14 if big else 12
     for rep in range(400 if big else 60):
         h = rng.randrange(7, hmax + 1)
         n = 1 << h
@@ -247,7 +247,7 @@ def compare(case, impl, model):
     if s is None:
         return "malformed output"
     prof, res, mod, spec = s
-    if res != mod:
+    if mod != "-" and res != mod:
         return "implementation (%s) differs from the model" % prof
     if spec != "-" and res != spec:
         return "implementation (%s) agrees with the model but violates the specification" % prof
